@@ -39,6 +39,9 @@ type Store struct {
 	nfailed int
 	// Reads counts Get/Has calls (diagnostics for bounded-work checks).
 	Reads int
+	// Gate, when set, is called before and after every datastore operation, outside the store's own lock: the
+	// schedule-exploring harness parks the calling goroutine there (point = ds.<op>.before|after).
+	Gate func(ctx context.Context, point, key string)
 }
 
 // New returns an empty recording store.
@@ -141,7 +144,15 @@ func ImageAfter(base map[string][]byte, log []Entry, n int) map[string][]byte {
 	return img
 }
 
-func (s *Store) Put(_ context.Context, k ds.Key, v []byte) error {
+func (s *Store) gate(ctx context.Context, point, key string) {
+	if g := s.Gate; g != nil {
+		g(ctx, point, key)
+	}
+}
+
+func (s *Store) Put(ctx context.Context, k ds.Key, v []byte) error {
+	s.gate(ctx, "ds.put.before", k.String())
+	defer s.gate(ctx, "ds.put.after", k.String())
 	s.mu.Lock()
 	defer s.mu.Unlock()
 	if err := s.attempt(); err != nil {
@@ -153,7 +164,9 @@ func (s *Store) Put(_ context.Context, k ds.Key, v []byte) error {
 	return nil
 }
 
-func (s *Store) Delete(_ context.Context, k ds.Key) error {
+func (s *Store) Delete(ctx context.Context, k ds.Key) error {
+	s.gate(ctx, "ds.delete.before", k.String())
+	defer s.gate(ctx, "ds.delete.after", k.String())
 	s.mu.Lock()
 	defer s.mu.Unlock()
 	if err := s.attempt(); err != nil {
@@ -164,7 +177,9 @@ func (s *Store) Delete(_ context.Context, k ds.Key) error {
 	return nil
 }
 
-func (s *Store) Get(_ context.Context, k ds.Key) ([]byte, error) {
+func (s *Store) Get(ctx context.Context, k ds.Key) ([]byte, error) {
+	s.gate(ctx, "ds.get.before", k.String())
+	defer s.gate(ctx, "ds.get.after", k.String())
 	s.mu.Lock()
 	defer s.mu.Unlock()
 	s.Reads++
@@ -175,7 +190,9 @@ func (s *Store) Get(_ context.Context, k ds.Key) ([]byte, error) {
 	return v, nil
 }
 
-func (s *Store) Has(_ context.Context, k ds.Key) (bool, error) {
+func (s *Store) Has(ctx context.Context, k ds.Key) (bool, error) {
+	s.gate(ctx, "ds.has.before", k.String())
+	defer s.gate(ctx, "ds.has.after", k.String())
 	s.mu.Lock()
 	defer s.mu.Unlock()
 	s.Reads++
@@ -224,7 +241,9 @@ func (b *batch) Delete(_ context.Context, k ds.Key) error {
 	return nil
 }
 
-func (b *batch) Commit(context.Context) error {
+func (b *batch) Commit(ctx context.Context) error {
+	b.s.gate(ctx, "ds.commit.before", "")
+	defer b.s.gate(ctx, "ds.commit.after", "")
 	b.s.mu.Lock()
 	defer b.s.mu.Unlock()
 	if err := b.s.attempt(); err != nil {
